@@ -1,6 +1,7 @@
 import Driver.Pure
 import Driver.Flow
 import Driver.SWorld
+import Driver.CWorld
 /-!
   Model driver: one command per input line, one output line per command.
   `lake build driver && .lake/build/bin/driver < ops.txt`
@@ -11,6 +12,7 @@ structure DState where
   pure : PureState := {}
   flow : FlowState := {}
   sw : SWState := {}
+  cw : CWState := {}
 
 def stepLine (st : DState) (line : String) : DState × String :=
   match (line.trimAscii.toString.splitOn " ").filter (· ≠ "") with
@@ -24,7 +26,10 @@ def stepLine (st : DState) (line : String) : DState × String :=
       | none =>
         match sworldCmd st.pure.services st.sw cmd args with
         | some (w, out) => ({ st with sw := w }, out)
-        | none => (st, "bad-op")
+        | none =>
+          match cworldCmd st.cw cmd args with
+          | some (w, out) => ({ st with cw := w }, out)
+          | none => (st, "bad-op")
 
 partial def loop (h : IO.FS.Stream) (out : IO.FS.Stream) (st : DState) : IO Unit := do
   let line ← h.getLine
